@@ -87,6 +87,10 @@ def install(proj) -> None:
             elif base not in ev.env:
                 cls = find_class(base, ev)
             if cls is None:
+                if base not in ev.env and ev.module is not None:
+                    target = ev.module.imports.get(base)        # np.isclose(...) with `import numpy as np`
+                    if target and not target.startswith(proj.package):
+                        return external(ev, node, f"{target}.{meth}")
                 return False, None
             mname = meth
             if meth.startswith("__") and not meth.endswith("__"):
